@@ -122,7 +122,8 @@ theorem C18_accept (c : Cfg) (ih : Nat) (requester : Src) (text : Str)
       c'.code = c.code ∧ c'.L = c.L ∧ c'.tr = c.tr ∧ c'.log = c.log :=
   ⟨_, startRequest_accept c ih requester text h, rfl, rfl, rfl, rfl, rfl, rfl, rfl, rfl, rfl⟩
 
-/-- `startRequest` raises exactly in the refusal case -/
+/-- `startRequest` raises exactly in the refusal case: it goes on normally iff the request is accepted — or it is
+refused and the error it raises is caught by an enclosing scope (the `try` around a handler or a screen) -/
 theorem C18_refuse_iff (c : Cfg) (ih : Nat) (requester : Src) (text : Str) :
     (∃ c', startRequest c ih requester text = .ok c') ↔
       (c.A.inputStack = [] ∨ (c.A.ihs.getD ih default).skip = true) ∨
